@@ -76,17 +76,34 @@ const (
 var bitsClasses = map[string]uint32{"limit": 0x1d00ffff, "mid": 0x1803a30c, "hard": 0x17123456}
 
 type targetCase struct {
-	Times  [6]int8  `json:"time_offsets"` // offsets (-1,0,+1)*delta for heights h-147,h-146,h-145,h-3,h-2,h-1
-	Delta  uint32   `json:"delta"`
-	Span   int64    `json:"span"` // time of the last group minus time of the first group
+	Times  [6]int8   `json:"time_offsets"` // offsets (-1,0,+1)*delta for heights h-147,h-146,h-145,h-3,h-2,h-1
+	Delta  uint32    `json:"delta"`
+	Span   int64     `json:"span"` // time of the last group minus time of the first group
 	Bits   [6]string `json:"bits"`
-	Others string   `json:"other_bits"`
-	Fork   int      `json:"fork_at"` // 0: single root branch; k: a fork branch starts at index k
+	Others string    `json:"other_bits"`
+	Fork   int       `json:"fork_at"` // 0: single root branch; k: a fork branch starts at index k
 }
 
 var interesting = [6]int{3, 4, 5, 147, 148, 149}
 
 func runTargetCase(c targetCase) (got, want uint32, p string) {
+	hs, blocks := caseChain(c)
+	// the first header's accumulated work inside the implementation is its own work only; the
+	// algorithm only uses differences, so shift the reference by the same constant
+	p = safe(func() {
+		branch := branchOf(hs, c.Fork)
+		target, err := branch.Target(ctx, baseHeight+chainLen)
+		if err != nil {
+			panic(err)
+		}
+		got = bitcoin.ConvertToBits(target, bitcoin.MaxBits)
+	})
+	want = ref.DAARequiredBits(baseHeight+chainLen, func(height int) ref.DAABlock { return blocks[height-baseHeight] })
+	return
+}
+
+// caseChain builds the 150 headers of a target case and the reference's view of them.
+func caseChain(c targetCase) ([]*wire.BlockHeader, []ref.DAABlock) {
 	hs := make([]*wire.BlockHeader, chainLen)
 	blocks := make([]ref.DAABlock, chainLen)
 	work := new(big.Int).SetUint64(1)
@@ -119,36 +136,37 @@ func runTargetCase(c targetCase) (got, want uint32, p string) {
 		}
 		blocks[i] = ref.DAABlock{Time: uint32(t), ChainWork: new(big.Int).Set(work)}
 	}
-	// the first header's accumulated work inside the implementation is its own work only; the
-	// algorithm only uses differences, so shift the reference by the same constant
-	var branch *headers.Branch
-	p = safe(func() {
-		root, err := headers.NewBranch(nil, baseHeight-1, hs[0])
-		if err != nil {
-			panic(err)
-		}
-		branch = root
-		for i := 1; i < chainLen; i++ {
-			if c.Fork == i {
-				child, err := headers.NewBranch(branch, baseHeight+i-1, hs[i])
-				if err != nil {
-					panic(err)
-				}
-				branch = child
-				continue
+	return hs, blocks
+}
+
+// branchOf builds real Branch objects from the headers: a root branch, with a fork branch starting
+// at index fork when fork > 0.
+func branchOf(hs []*wire.BlockHeader, fork int) *headers.Branch {
+	root, err := headers.NewBranch(nil, baseHeight-1, hs[0])
+	if err != nil {
+		panic(err)
+	}
+	branch := root
+	for i := 1; i < len(hs); i++ {
+		if fork == i {
+			child, err := headers.NewBranch(branch, baseHeight+i-1, hs[i])
+			if err != nil {
+				panic(err)
 			}
-			if !branch.Add(hs[i]) {
-				panic("add failed")
-			}
+			branch = child
+			continue
 		}
-		target, err := branch.Target(ctx, baseHeight+chainLen)
-		if err != nil {
-			panic(err)
+		if !branch.Add(hs[i]) {
+			panic("add failed")
 		}
-		got = bitcoin.ConvertToBits(target, bitcoin.MaxBits)
-	})
-	want = ref.DAARequiredBits(baseHeight+chainLen, func(height int) ref.DAABlock { return blocks[height-baseHeight] })
-	return
+	}
+	return branch
+}
+
+// buildBranch rebuilds the branch of a target case (headers as in runTargetCase).
+func buildBranch(c targetCase, fork int) *headers.Branch {
+	hs, _ := caseChain(c)
+	return branchOf(hs, fork)
 }
 
 func tiePattern(t [3]int8) string {
@@ -254,6 +272,61 @@ func targetPart(thorough bool) *result {
 		}(w)
 	}
 	wg.Wait()
+	return res
+}
+
+// prunedPart: the target function on a branch whose lower headers are no longer in memory (a stale
+// side branch after the main branch was pruned, a restart with a short retained depth): for every
+// number of pruned headers 0..149 of the 150-header window, Target either answers exactly what the
+// network's algorithm requires (everything it needs is still there) or returns an error - never a
+// nil target without an error, never a panic.
+func prunedPart(thorough bool) *result {
+	res := newResult()
+	c := targetCase{Delta: 1, Span: 144 * 600, Bits: [6]string{"mid", "mid", "mid", "mid", "mid", "mid"}, Others: "mid"}
+	_, want, _ := runTargetCase(c)
+	for pruned := 0; pruned < chainLen; pruned++ {
+		for _, fork := range []int{0, 75} {
+			var target *big.Int
+			var err error
+			p := safe(func() {
+				b := buildBranch(c, fork)
+				b.Prune(pruned)
+				target, err = b.Target(ctx, baseHeight+chainLen)
+			})
+			res.evaluations++
+			res.nontrivial++
+			hist := map[string]any{"pruned_headers": pruned, "fork_at": fork}
+			needed := pruned <= interesting[0] // the lowest header the algorithm reads is index 3
+			if fork != 0 {
+				needed = true // pruning applies to the fork branch object only; its parent still holds the rest
+			}
+			switch {
+			case p != "":
+				res.outcomes["pruned/panic"]++
+				res.vs = append(res.vs, mc.Violation{Prop: "C02", Clause: "target-panic", Fingerprint: "target-panic|pruned-branch", Detail: fmt.Sprintf("Target panicked with %d headers pruned: %s", pruned, p), History: hist})
+			case err == nil && target == nil:
+				res.outcomes["pruned/nil-without-error"]++
+				res.vs = append(res.vs, mc.Violation{Prop: "C02", Clause: "target-nil-without-error", Fingerprint: "target-nil-without-error|pruned-branch",
+					Detail: fmt.Sprintf("Target returned neither a target nor an error with %d headers pruned (the caller dereferences the target)", pruned), History: hist})
+			case err == nil:
+				got := bitcoin.ConvertToBits(target, bitcoin.MaxBits)
+				res.outcomes["pruned/answered"]++
+				if got != want {
+					res.vs = append(res.vs, mc.Violation{Prop: "C02", Clause: "target-mismatch", Fingerprint: "target-mismatch|pruned-branch",
+						Detail: fmt.Sprintf("required bits with %d headers pruned: implementation 0x%08x, network algorithm 0x%08x", pruned, got, want), History: hist})
+				}
+			default:
+				res.outcomes["pruned/error"]++
+				if needed && fork == 0 {
+					res.vs = append(res.vs, mc.Violation{Prop: "C02", Clause: "target-error-with-data", Fingerprint: "target-error-with-data|pruned-branch",
+						Detail: fmt.Sprintf("Target failed (%v) although every header it needs is in memory (%d pruned)", err, pruned), History: hist})
+				}
+			}
+			if len(res.samples) < 3 {
+				res.samples = append(res.samples, map[string]any{"part": "pruned-branch", "case": hist})
+			}
+		}
+	}
 	return res
 }
 
@@ -506,7 +579,7 @@ func main() {
 	for _, p := range []struct {
 		name string
 		f    func(bool) *result
-	}{{"target-function", targetPart}, {"bits-decoding", bitsPart}, {"real-chain", chainPart}, {"own-branch-target", forkPart}} {
+	}{{"target-function", targetPart}, {"target-on-pruned-branch", prunedPart}, {"bits-decoding", bitsPart}, {"real-chain", chainPart}, {"own-branch-target", forkPart}} {
 		t0 := time.Now()
 		r := p.f(thorough)
 		parts[p.name] = r
@@ -529,11 +602,11 @@ func main() {
 		Coverage: map[string]any{
 			"evaluations":         total.evaluations,
 			"distinct_nontrivial": total.nontrivial,
-			"rule": "three complete Cartesian spaces, every element run through the real code: (1) target function: 3^6 timestamp order/tie patterns of the six headers that matter x time-span classes {below 72 blocks, inside, above 288, zero, negative, at the clamps} x bits patterns x branch shapes (root / fork straddling either median window), compared with a reference implementation of the network's algorithm; non-trivial = a tie in a median window, a non-positive span or a fork branch; (2) bits: every exponent byte 0..255 x 11 mantissas x {hash above target, hash meeting the target where one can be found} through ProcessHeader and HandleHeadersMessage; non-trivial = negative / overflow / zero target or exponent outside 4..0x1d; (3) both real mainnet fixture chains with difficulty checking on and 15 single-field mutations of every header in a window; every mutant is non-trivial. All cases distinct by construction",
-			"exhaustive": true,
-			"outcomes":   total.outcomes,
-			"parts":      per,
-			"samples":    total.samples,
+			"rule":                "complete Cartesian spaces, every element run through the real code: (0) the target function on a branch with 0..149 of its 150 window headers pruned from memory (root and fork branch): the required answer or an error, never a nil target without error; (1) target function: 3^6 timestamp order/tie patterns of the six headers that matter x time-span classes {below 72 blocks, inside, above 288, zero, negative, at the clamps} x bits patterns x branch shapes (root / fork straddling either median window), compared with a reference implementation of the network's algorithm; non-trivial = a tie in a median window, a non-positive span or a fork branch; (2) bits: every exponent byte 0..255 x 11 mantissas x {hash above target, hash meeting the target where one can be found} through ProcessHeader and HandleHeadersMessage; non-trivial = negative / overflow / zero target or exponent outside 4..0x1d; (3) both real mainnet fixture chains with difficulty checking on and 15 single-field mutations of every header in a window; every mutant is non-trivial. All cases distinct by construction",
+			"exhaustive":          true,
+			"outcomes":            total.outcomes,
+			"parts":               per,
+			"samples":             total.samples,
 		},
 		Assumptions: []string{
 			"headers that meet a small target cannot be constructed (no mining): the accept side is covered by the real chain, the refuse side by every encoding",
